@@ -50,6 +50,43 @@ AsgSet(n) == CASE n = "none" -> {} [] n = "a" -> {"a"} [] n = "b" -> {"b"} [] n 
 Table(e) == [n \in AsgNames |-> Included(e, AsgSet(n))]
 
 -----------------------------------------------------------------------------
+(* target platforms and build-constrained SOURCE files.
+   The toolchain evaluates a build expression over the user tags (-tags) AND the tags the target platform supplies
+   (GOOS, GOARCH, "unix").  The interfaces that are mocked may themselves be declared in files that carry a build
+   constraint (satisfied where mockery runs, otherwise the loader does not see them).  The property speaks about the
+   configured mock-build-tags expression only: the mock file is included exactly when THAT expression is satisfied --
+   on every platform, whatever constrains the source file. *)
+EnvNames == {"linux_amd64", "darwin_arm64", "windows_386", "linux_amd64_c"}
+Env(v) == CASE v = "linux_amd64"   -> [goos |-> "linux",   goarch |-> "amd64", extra |-> {}]
+            [] v = "darwin_arm64"  -> [goos |-> "darwin",  goarch |-> "arm64", extra |-> {}]
+            [] v = "windows_386"   -> [goos |-> "windows", goarch |-> "386",   extra |-> {}]
+            [] v = "linux_amd64_c" -> [goos |-> "linux",   goarch |-> "amd64", extra |-> {"c"}]    \* custom tag c also given to the toolchain
+HostEnv == "linux_amd64"          \* where mockery runs (the harness verifies it)
+EnvTags(v) == {Env(v).goos, Env(v).goarch} \cup Env(v).extra \cup (IF Env(v).goos \in {"linux", "darwin"} THEN {"unix"} ELSE {})
+
+\* constraints of the source file that declares the mocked interfaces: name -> [expr, style].
+\* style "gobuild" = a //go:build line, "plusbuild" = legacy // +build line(s) only.
+\* "custom": a tag of the project's own, handed to mockery with the build-tags parameter.
+SrcConsNames == {"none", "oslist", "notwin", "arch", "custom", "plusos", "plusnot"}
+SrcCons(s) == CASE s = "none"    -> [expr |-> NoExpr, style |-> "none"]
+                [] s = "oslist"  -> [expr |-> Or(Tg("linux"), Tg("darwin")), style |-> "gobuild"]
+                [] s = "notwin"  -> [expr |-> Not(Tg("windows")), style |-> "gobuild"]
+                [] s = "arch"    -> [expr |-> Or(Tg("amd64"), Tg("arm64")), style |-> "gobuild"]
+                [] s = "custom"  -> [expr |-> Tg("c"), style |-> "gobuild"]
+                [] s = "plusos"  -> [expr |-> Or(Tg("darwin"), Tg("linux")), style |-> "plusbuild"]
+                [] s = "plusnot" -> [expr |-> Not(Tg("windows")), style |-> "plusbuild"]
+\* tags mockery itself must be given (build-tags) so that it sees the source file on the host
+MockeryTags(s) == IF s = "custom" THEN {"c"} ELSE {}
+\* is the SOURCE file part of the build on platform v (world fact; the harness checks its worlds against it)
+SrcIncluded(s, v) == Included(SrcCons(s).expr, EnvTags(v))
+SrcVisibleToMockery(s) == Included(SrcCons(s).expr, EnvTags(HostEnv) \cup MockeryTags(s))
+
+\* CONTRACT: the mock file under platform v and user tags asg: the configured expression, evaluated the way the
+\* toolchain does (user tags + platform tags).  The source constraint is not an argument.
+IncludedIn(e, v, asg) == Included(e, asg \cup EnvTags(v))
+TableEnv(e) == [v \in EnvNames |-> [n \in AsgNames |-> IncludedIn(e, v, AsgSet(n))]]
+
+-----------------------------------------------------------------------------
 (* header lines.  A line is [c |-> class, tt |-> truth table or << >>].
    classes:  marker    // Code generated ... DO NOT EDIT.   (whole line, outside a block comment)
              lc        any other // line comment
@@ -116,4 +153,11 @@ Demands(e, gen, verbatim, incl) ==
   /\ gen
   /\ verbatim
   /\ \A n \in AsgNames : incl[n] = Included(e, AsgSet(n))
+\* the same with the toolchain asked on several platforms: inclenv = platform name -> assignment name -> listed
+\* (the platforms that were asked; the host is always among them)
+DemandsEnv(e, gen, verbatim, inclenv) ==
+  /\ gen
+  /\ verbatim
+  /\ HostEnv \in DOMAIN inclenv
+  /\ \A v \in DOMAIN inclenv : v \in EnvNames /\ \A n \in AsgNames : inclenv[v][n] = IncludedIn(e, v, AsgSet(n))
 =============================================================================
